@@ -326,7 +326,7 @@ def worker(ctx):
 def run(env):
     quick = env.tier == "quick"
     stats = core.run_workers(__name__, "worker", PROP, env.tier, env.seed, env.driver, env.hooks_on,
-                             40 if quick else 400, {"units_per_worker": 1500 if quick else 40000})
+                             40 if quick else 400, {"units_per_worker": 5000 if quick else 40000})
     return core.finish(PROP, env.tier, env.seed, LEVEL, stats, env.t0, RULE, min_conclusive=2000 if quick else 20000,
                        assumptions=["vf/csvmodel.py is a faithful RFC 4180 reader with the skip-initial-space dialect",
                                     "text mode: data avoids the item separator, line breaks and (for collections) non-invertible escape sequences"])
